@@ -1232,9 +1232,16 @@ where
         } else if !flipped && !disk.corrupted && j.starts_with(&data) {
             // R3: a torn record (strict prefix) is rejected - guaranteed by JSON framing
             if e_ref.is_ok() {
+                // a strict prefix of a JSON document is never a JSON document: serde_json
+                // reports an error, and only a Deserialize that swallows the deserializer's
+                // error can turn that into a value
                 viols.push(viol(
-                    "H-harness-torn-record-accepted",
-                    format!("strict prefix {:?} of the record decoded successfully", String::from_utf8_lossy(&data)),
+                    "R3-torn-record-accepted",
+                    format!(
+                        "the torn record {:?} (a strict prefix of {:?}) was read back as a value instead of an error",
+                        String::from_utf8_lossy(&data),
+                        String::from_utf8_lossy(&j)
+                    ),
                     fp,
                 ));
             } else {
